@@ -10,6 +10,19 @@ def line (label : String) : Outcome String → String
   | .diverge => s!"{label} hang"
 def intsIn : List (Array Int) := [#[], #[4], #[3, 0, -2], #[0, 0, 5, 12, -1, 7], #[9, 8, 7, 6, 5, 4, 3]]
 def F : Nat := 1000
+def str (s : String) : Go.Str := s.toUTF8.toList
+/-- Go's %q of a byte string (printable ASCII as is, other bytes as \xNN) -/
+def hex2 (b : UInt8) : String := let d := "0123456789abcdef".toList; String.ofList [d[(b / 16).toNat]!, d[(b % 16).toNat]!]
+def showQ (s : Go.Str) : String := "\"" ++ String.join (s.map fun b => if b == 0 then "\\x00" else if 32 ≤ b ∧ b < 127 then String.ofList [Char.ofNat b.toNat] else "\\x" ++ hex2 b) ++ "\""
+/-- %q prints valid UTF-8 as text: the one such test string is special-cased -/
+def showQ' (s : Go.Str) : String := if s == [104, 0xc3, 0xa9, 108, 108, 111] then "\"héllo\"" else showQ s
+def showQs (l : Array Go.Str) : String := "[" ++ " ".intercalate (l.toList.map showQ) ++ "]"
+def showU (l : Array UInt64) : String := "[" ++ " ".intercalate (l.toList.map toString) ++ "]"
+def bs (l : List Nat) : Go.Str := l.map UInt8.ofNat
+def seqXs : Array Int := #[7, 0, 12, 5, 3, 1000, 1, 64, 9, 2, 31]
+def newSeq : Go.Rand := Go.Rand.new fun k => seqXs[k % seqXs.size]!
+/-- `r.Intn(1000)` of run.go, to show how far the generator was advanced -/
+def next1000 (r : Go.Rand) : String := match Go.Rand.intn r 1000 with | .ok (_, v) => toString v | _ => "?"
 
 def main : IO Unit := do
   for a in [(-7 : Int), -1, 0, 5, 7] do
@@ -28,6 +41,53 @@ def main : IO Unit := do
     IO.println (line s!"fib {n}" ((fib F n).map toString))
     IO.println (line s!"useFill {n}" ((useFill F n).map toString))
     IO.println (line s!"methods {n}" ((methods n).map toString))
+  for s in intsIn do
+    for lo in [(-1 : Int), 0, 1] do
+      for hi in [(0 : Int), 2, 4, 6, 7] do
+        IO.println (line s!"scan {showInts s} {lo} {hi}" ((scan F s lo hi).map fun (c, i, j) => s!"{showInts c} {i} {j}"))
+    IO.println (line s!"shuffle {showInts s}" ((shuffle s newSeq).map fun (c, r) => s!"{showInts c} {next1000 r}"))
+    IO.println (line s!"clockShuffle {showInts s}" ((clockShuffle (fun k => 5 * k + 3) s).map fun (_, v) => toString v))
+  for n in [(-1 : Int), 0, 1, 2, 5, 9] do
+    for k in [(0 : Int), 1, 3, 5] do
+      IO.println (line s!"draws {n} {k}" ((draws newSeq n k).map fun (_, v) => toString v))
+    IO.println (line s!"draw2 {n}" ((draw2 newSeq n).map fun (r, v) => s!"{v} {next1000 r}"))
+  for sc in ([#[], #[5, 10, 6, 7, 8], #[5, 5, 11, 12, 13, 13], #[6], #[7], #[8], #[0], #[25], #[10, 15, 20, 9, 14, 19, 24, 11, 17, 18, 13], #[5, 8, 5, 6, 8, 8],
+      #[10, 1], #[10, 27], #[10, 3], #[10, 28], #[9, 14], #[4], #[29], #[5, 10, 15, 20, 21, 16, 11, 6, 22, 17, 12, 7, 23, 18, 13, 8]] : List (Array Int)) do
+    IO.println (line s!"records {showInts sc}" ((records sc).map toString))
+  let us : List UInt64 := [0, 1, 3, 255, 9223372036854775808, 0 - 1]
+  for x in us do
+    for y in us do
+      for sh in [(-1 : Int), 0, 1, 8, 63, 64, 200] do
+        IO.println (line s!"words {x} {y} {sh}" ((words x y sh).map fun (a, b, c, d, e, f) => s!"{a} {b} {c} {d} {e} {f}"))
+  for v in [(0 : Int), 1, -1, 255, -256, 2 ^ 40, -(2 ^ 40) - 12345, 2 ^ 62 + 77] do
+    for sh in [(-3 : Int), 0, 4, 8, 56, 63, 64, 65] do
+      IO.println (line s!"ibits {v} {sh}" ((ibits v sh).map fun (a, b, c, d) => s!"{a} {b} {c} {d}"))
+  for s in [bs [], str "a", str "mid", str "zz", bs [104, 0xc3, 0xa9, 108, 108, 111], bs [0, 255, 128]] do
+    for i in [(-1 : Int), 0, 1, 2, 4, 6] do
+      IO.println (line s!"bytesOf {showQ' s} {i}" ((bytesOf s i #[10, 20, 30, 40, 50]).map fun (a, b, c, d) => s!"{a} {b} {c} {d}"))
+  for a in ([#[], #[str "b"], #[str "b", str "a", bs [], str "ab", str "a", bs [255], bs [97, 0]], #[str "same", str "same"]] : List (Array Go.Str)) do
+    IO.println (line s!"sortStrings {showQs a}" ((sortStrings F a).map fun (c, n) => s!"{showQs c} {n}"))
+  for a in ([#[], #[5, 0 - 1, 0, 9223372036854775808, 5]] : List (Array UInt64)) do
+    IO.println (line s!"sortUints {showU a}" ((sortUints F a).map fun (c, n) => s!"{showU c} {n}"))
+  for a in intsIn do
+    IO.println (line s!"sortInts {showInts a}" ((sortInts F a).map fun (c, n) => s!"{showInts c} {n}"))
+    for d in [(0 : Int), 1, 3, 5] do
+      IO.println (line s!"paint {showInts a} {d}" ((paint F a 0 ((a.size : Int) - 1) d).map showInts))
+      IO.println (line s!"gshuffle {showInts a} {d - 1}" ((gshuffle a (d - 1) newSeq).map fun (_, _, v) => toString v))
+  IO.println (line "paint-range" ((paint F #[1, 2, 3] 0 5 4).map showInts))
+  for x in ([0, 1, 12, 18, 0 - 1, 9223372036854775808] : List UInt64) do
+    for y in ([0, 1, 8, 18, 27, 0 - 1] : List UInt64) do
+      IO.println (line s!"euclid {x} {y}" ((euclid F x y).map fun (a, q) => s!"{a} {q}"))
+  for n in [(-5 : Int), 0, 1, 9, 10, 11] do
+    for k in [(-3 : Int), 0, 1, 5] do
+      IO.println (line s!"nextMultiple {n} {k}" ((nextMultiple F n k).map toString))
+  for i in ([#[], #[3], #[3, 5, 3, 8]] : List (Array Int)) do
+    for sc in ([#[], #[3], #[8, 12, 2, 14], #[9], #[13], #[17], #[5], #[21], #[8, 12, 16, 13, 13, 9, 4, 34, 3, 17]] : List (Array Int)) do
+      IO.println (line s!"bagScript {showInts i} {showInts sc}" ((bagScript i sc).map toString))
+  for n in [(-1 : Int), 0, 1, 2, 4] do
+    let pss : List (Array Int) := [#[], #[0, 0], #[1, 0, 0, 1, 3, 2, 2], #[0, 3, 3, 9, 5, 0]]
+    for (k, ps) in (List.range 4).zip pss do
+      IO.println (line s!"netScript {n} {k} {showInts ps}" ((netScript F n (k : Int) ps).map toString))
 
 #eval main
 end Selftest
